@@ -22,15 +22,23 @@ Local Open Scope Z_scope.
 
 (* ---------- types of the harness ---------- *)
 (* 0..5 instrumented payloads (sizeof 1,4,8,16, string-like 40, vector-like 32), 6 bool, 7 int,
-   8 const void*, 9 std::string, 10 std::vector<int>;  the harness static_asserts these sizes *)
-Definition NTY : Z := 11.
+   8 const void*, 9 std::string, 10 std::vector<int>;
+   11..13 instrumented payloads of sizeof 9, 12, 15 (bigger than the holder's word, not a multiple of it),
+   14 a plain struct of three ints (12), 15 a plain struct of nine chars (9), 16 a plain struct of four ints (16),
+   17 a plain struct of two ints (8);  the harness static_asserts these sizes.
+   Value semantics do not depend on the type: the tag only selects the representation (stored_inplace) and
+   whether the harness can report an object id (instr). *)
+Definition NTY : Z := 18.
 Definition PTR_SIZE : Z := 8.
 Definition size_of (ty : Z) : Z :=
   if ty =? 0 then 1 else if ty =? 1 then 4 else if ty =? 2 then 8 else if ty =? 3 then 16 else
   if ty =? 4 then 40 else if ty =? 5 then 32 else if ty =? 6 then 1 else if ty =? 7 then 4 else
-  if ty =? 8 then 8 else if ty =? 9 then 32 else 24.
-Definition stored_inplace (ty : Z) : bool := inplace_cmp (size_of ty) PTR_SIZE.
-Definition instr (ty : Z) : bool := (0 <=? ty) && (ty <? 6).
+  if ty =? 8 then 8 else if ty =? 9 then 32 else if ty =? 10 then 24 else
+  if ty =? 11 then 9 else if ty =? 12 then 12 else if ty =? 13 then 15 else
+  if ty =? 14 then 12 else if ty =? 15 then 9 else if ty =? 16 then 16 else 8.
+(* vtable<T>(): in_place (sizeof T) (sizeof void-pointer), generated from detail/value_store.h *)
+Definition stored_inplace (ty : Z) : bool := in_place (size_of ty) PTR_SIZE.
+Definition instr (ty : Z) : bool := ((0 <=? ty) && (ty <? 6)) || ((11 <=? ty) && (ty <? 14)).
 Definition norm (ty v : Z) : Z := if ty =? 6 then v mod 2 else v mod 1000.
 
 (* ---------- ledger ---------- *)
@@ -402,7 +410,13 @@ Definition run_case_a (c : list Z) : list Z :=
 (* Part B.  Option : RefCountable, shared through IntrusiveSharedPtr<Option>.
    opts: per option (refCount_, number of times ~Option ran); psl: the client's SharedOptPtr
    variables (None = null); conts: containers of SharedOptPtr (OptionGroup::options_,
-   ParsedValues::parsed_, OptionContext::options_ + groups_[k].options_), as lists of option ids. *)
+   ParsedValues::parsed_, OptionContext::options_ + groups_[k].options_), as lists of option ids,
+   followed by ONE extra entry (index C_): the client's own pool of handle copies
+   (std::vector<SharedOptPtr>, newest handle first).
+
+   The counter has the range of its declared C++ type (Consts_C20: refcount_min / refcount_max, read from
+   refcountable.h): every value written to refCount_ goes through rc_store, the value release() returns
+   through the range of release()'s return type, what refCount() / count() report through theirs. *)
 Record opt := mkO { o_rc : Z; o_dc : Z }.
 Record rst := mkR { opts : list opt; psl : list (option nat); conts : list (list nat); rerr : bool }.
 
@@ -411,21 +425,35 @@ Definition r_set_psl (p : list (option nat)) (s : rst) := mkR (opts s) p (conts 
 Definition r_set_conts (c : list (list nat)) (s : rst) := mkR (opts s) (psl s) c (rerr s).
 Definition r_err (s : rst) := mkR (opts s) (psl s) (conts s) true.
 
+(* conversion of v to an integer type with range lo..hi (two's complement / modular) *)
+Definition in_range (lo hi v : Z) : bool := (lo <=? v) && (v <=? hi).
+Definition conv (lo hi v : Z) : Z := if in_range lo hi v then v else lo + (v - lo) mod (hi - lo + 1).
+(* ++refCount_ / --refCount_ : the value that ends up in the member, and whether computing it was undefined
+   (signed type of rank >= int leaving its range; narrower and unsigned types wrap) *)
+Definition rc_store (v : Z) : Z * bool :=
+  (conv refcount_min refcount_max v, refcount_overflow_undefined && negb (in_range refcount_min refcount_max v)).
+Definition rc_rel (v : Z) : Z := conv refcount_rel_min refcount_rel_max v.          (* what release() returns *)
+Definition rc_obs (v : Z) : Z := conv refcount_rc_min refcount_rc_max v.            (* what refCount() returns *)
+Definition rc_cnt (v : Z) : Z := conv refcount_cnt_min refcount_cnt_max (rc_obs v). (* what count() returns *)
+
 (* ptr_->addRef() *)
 Definition add_ref (o : nat) (s : rst) : rst :=
   match nth_error (opts s) o with
-  | Some x => let s' := r_set_opts (upd o (mkO (o_rc x + 1) (o_dc x)) (opts s)) s in
-              if o_dc x =? 0 then s' else r_err s'
+  | Some x => let '(v, ub) := rc_store (o_rc x + 1) in
+              let s' := r_set_opts (upd o (mkO v (o_dc x)) (opts s)) s in
+              if (o_dc x =? 0) && negb ub then s' else r_err s'
   | None => r_err s
   end.
 (* if (ptr_ && ptr_->release() == 0) delete ptr_ *)
 Definition release (o : nat) (s : rst) : rst :=
   match nth_error (opts s) o with
   | Some x =>
+      let '(v, ub) := rc_store (o_rc x - 1) in
       if o_dc x =? 0 then
-        if o_rc x - 1 =? 0 then r_set_opts (upd o (mkO 0 1) (opts s)) s
-        else r_set_opts (upd o (mkO (o_rc x - 1) 0) (opts s)) s
-      else r_err (r_set_opts (upd o (mkO (o_rc x - 1) (o_dc x + 1)) (opts s)) s)
+        let s' := if rc_rel v =? 0 then r_set_opts (upd o (mkO 0 1) (opts s)) s
+                  else r_set_opts (upd o (mkO v 0) (opts s)) s in
+        if ub then r_err s' else s'
+      else r_err (r_set_opts (upd o (mkO v (o_dc x + 1)) (opts s)) s)
   | None => r_err s
   end.
 Definition add_ref_o (p : option nat) (s : rst) := match p with Some o => add_ref o s | None => s end.
@@ -439,15 +467,36 @@ Inductive rop :=
 | RReset (i : Z)
 | RSwap (i j : Z)
 | RPush (c i : Z)       (* container c takes a copy of p[i] *)
-| RDrop (c : Z).        (* container c is destroyed (and a fresh one takes its place) *)
+| RDrop (c : Z)         (* container c is destroyed (and a fresh one takes its place) *)
+| RPushN (c i k : Z)    (* k times: container c (or, c = C_, the client's handle pool) takes a copy of p[i] *)
+| RPopN (k : Z).        (* k times: the pool's newest handle is destroyed (pop_back) *)
 
 (* container kinds by index: 0 OptionGroup::addOption, 1 ParsedValues::add, 2 OptionContext::add(group) *)
 Definition ckind (c : Z) : Z := c mod 3.
+(* largest k of the bulk operations (a case is a line of text; the harness creates k real handles) *)
+Definition BULK_MAX : Z := 100000.
+(* k copies of o, without unary numbers *)
+Definition repeatN (o : nat) (k : N) : list nat := N.iter k (cons o) [].
+(* length as a binary number *)
+Definition lenZ {A : Type} (l : list A) : Z := fold_left (fun a _ => a + 1) l 0.
 
 Section RunB.
 Variable S_ C_ : nat.
 Definition okp (i : Z) : bool := (0 <=? i) && (i <? Z.of_nat S_).
 Definition okc (c : Z) : bool := (0 <=? c) && (c <? Z.of_nat C_).
+
+(* OptionContext::add(group): insertOption throws DuplicateOption when the name is known;
+   otherwise the option is pushed to options_ and to groups_[k].options_ *)
+Definition push_ctx (c : nat) (o : nat) (s : rst) : rst :=
+  let cur := nth c (conts s) [] in
+  if existsb (Nat.eqb o) cur then s
+  else r_set_conts (upd c (cur ++ [o; o]) (conts s)) (add_ref o (add_ref o s)).
+(* pool.pop_back() *)
+Definition pop1 (s : rst) : rst :=
+  match nth C_ (conts s) [] with
+  | [] => s
+  | o :: r => release o (r_set_conts (upd C_ r (conts s)) s)
+  end.
 
 Definition rstep (s : rst) (o : rop) : rst :=
   match o with
@@ -482,11 +531,7 @@ Definition rstep (s : rst) (o : rop) : rst :=
         match pslot s (Z.to_nat i) with
         | Some o =>
             let cur := nth (Z.to_nat c) (conts s) [] in
-            if ckind c =? 2 then
-              (* OptionContext::add(group): insertOption throws DuplicateOption when the name is known;
-                 otherwise the option is pushed to options_ and to groups_[k].options_ *)
-              if existsb (Nat.eqb o) cur then s
-              else r_set_conts (upd (Z.to_nat c) (cur ++ [o; o]) (conts s)) (add_ref o (add_ref o s))
+            if ckind c =? 2 then push_ctx (Z.to_nat c) o s
             else r_set_conts (upd (Z.to_nat c) (cur ++ [o]) (conts s)) (add_ref o s)
         | None => s
         end
@@ -496,12 +541,34 @@ Definition rstep (s : rst) (o : rop) : rst :=
         let cur := nth (Z.to_nat c) (conts s) [] in
         r_set_conts (upd (Z.to_nat c) [] (conts s)) (fold_left (fun a o => release o a) cur s)
       else s
+  | RPushN c i k =>
+      if (okc c || (c =? Z.of_nat C_)) && okp i && (0 <=? k) && (k <=? BULK_MAX) then
+        match pslot s (Z.to_nat i) with
+        | Some o =>
+            let cur := nth (Z.to_nat c) (conts s) [] in
+            if c =? Z.of_nat C_ then
+              r_set_conts (upd (Z.to_nat c) (repeatN o (Z.to_N k) ++ cur) (conts s)) (N.iter (Z.to_N k) (add_ref o) s)
+            else if ckind c =? 2 then
+              (* the first add registers the option (if it is not known yet), every further one is refused *)
+              if k =? 0 then s else push_ctx (Z.to_nat c) o s
+            else r_set_conts (upd (Z.to_nat c) (cur ++ repeatN o (Z.to_N k)) (conts s)) (N.iter (Z.to_N k) (add_ref o) s)
+        | None => s
+        end
+      else s
+  | RPopN k =>
+      if (0 <=? k) && (k <=? BULK_MAX) then N.iter (Z.to_N k) pop1 s else s
   end.
 
+(* per option: alive, refCount(), destructor runs; per client pointer: the option it points to and what count() reports
+   (-1: null / the option is gone); container sizes (pool last); error flag *)
 Definition rdump (s : rst) : list Z :=
-  flat_map (fun x => [b2z (o_dc x =? 0); if o_dc x =? 0 then o_rc x else -1; o_dc x]) (opts s)
-  ++ map (fun p => match p with Some o => Z.of_nat o | None => -1 end) (psl s)
-  ++ map (fun c => Z.of_nat (length c)) (conts s)
+  flat_map (fun x => [b2z (o_dc x =? 0); if o_dc x =? 0 then rc_obs (o_rc x) else -1; o_dc x]) (opts s)
+  ++ flat_map (fun p => match p with
+                        | Some o => [Z.of_nat o; match nth_error (opts s) o with
+                                                 | Some x => if o_dc x =? 0 then rc_cnt (o_rc x) else -1
+                                                 | None => -1 end]
+                        | None => [-1; 0] end) (psl s)
+  ++ map (fun c => lenZ c) (conts s)
   ++ [b2z (rerr s)].
 
 Fixpoint rrun_ops (s : rst) (ops : list rop) : list Z * rst :=
@@ -509,12 +576,12 @@ Fixpoint rrun_ops (s : rst) (ops : list rop) : list Z * rst :=
   | [] => ([], s)
   | o :: r => let s1 := rstep s o in let '(o2, s2) := rrun_ops s1 r in (rdump s1 ++ o2, s2)
   end.
-Definition rinit : rst := mkR [] (repeat None S_) (repeat [] C_) false.
-(* everything goes away: the client's pointers, then the containers *)
+Definition rinit : rst := mkR [] (repeat None S_) (repeat [] (S C_)) false.
+(* everything goes away: the client's pointers, then the containers and the pool *)
 Definition rfinish (s : rst) : rst :=
   let s1 := fold_left (fun a p => release_o p a) (psl s) s in
   let s2 := fold_left (fun a o => release o a) (concat (conts s1)) s1 in
-  mkR (opts s2) (repeat None S_) (repeat [] C_) (rerr s2).
+  mkR (opts s2) (repeat None S_) (repeat [] (S C_)) (rerr s2).
 Definition rrun (ops : list rop) : list Z :=
   let '(outs, s) := rrun_ops rinit ops in
   let f := rfinish s in outs ++ rdump f ++ [b2z (existsb (fun x => o_dc x =? 0) (opts f))].   (* last: an option outlived every holder *)
@@ -532,6 +599,8 @@ Fixpoint decode_rops (fuel : nat) (l : list Z) : list rop :=
       | 5 :: i :: j :: r => RSwap i j :: decode_rops f r
       | 6 :: c :: i :: r => RPush c i :: decode_rops f r
       | 7 :: c :: r => RDrop c :: decode_rops f r
+      | 8 :: c :: i :: k :: r => RPushN c i k :: decode_rops f r
+      | 9 :: k :: r => RPopN k :: decode_rops f r
       | _ => []
       end
   end.
